@@ -2470,7 +2470,7 @@ func TestVerifC03Late(t *testing.T) {
 	if h == nil {
 		t.Skip("VERIF_OUT not set")
 	}
-	n := h.N(32, 300)
+	n := h.N(40, 308) // cases 0-7: the directed histories of c03LateCase (bound pods), then the random stream
 	full := [c03D]bool{true, true, true}
 	dmax := c03RL{has: full, v: [c03D]int64{8000, 16, 4}}
 	t.Run("late", func(t *testing.T) {
@@ -2485,7 +2485,10 @@ func TestVerifC03Late(t *testing.T) {
 	h.Close("one history per case: default quota (group 1, max cpu 8 / mem 16 / gpu 4) + groups 3..5 of which one or two are created in the middle of " +
 		"the history; <=10 pods labelled with registered and not-yet-registered groups; 40 events: PreFilter, Reserve of the admitted pod, Unreserve, " +
 		"OnPodDelete (not for pods waiting for a tick), OnPodAdd, group creation followed by the migration tick, extra ticks; switches = case index mod 4; " +
-		"non-trivial = an assigned pod was migrated; distinct by op lines")
+		"1/3 of the new pods are ALREADY BOUND when first seen (OnPodAdd of an object with a node name); ordinary updates (old and new object bound) of bound pods, " +
+		"also between a group's creation and the tick; OnQuotaDelete of a planned group (its pods are held by no group afterwards) and its re-creation, after which " +
+		"the dropped pods come back by an ordinary update; cases 0-7 directed (running pod seen before its group exists / group deleted and re-created, then a " +
+		"second pod asks for admission); non-trivial = an assigned pod was migrated or a bound pod was filed by an update; distinct by op lines")
 }
 
 func c03LateCase(t *testing.T, h *vHarness, suit *pluginTestSuit, idx int, dmax c03RL) {
@@ -2557,6 +2560,39 @@ func c03LateCase(t *testing.T, h *vHarness, suit *pluginTestSuit, idx int, dmax 
 		gp.migrateDefaultQuotaGroupsPod()
 		w.dump()
 	}
+	// dropped: pods whose group was deleted while it held them (held by no group now); the pod objects live on (bound)
+	dropped := map[int]bool{}
+	forced := -1 // directed histories: the choice taken for every pod between a group's creation and the tick
+	// an ordinary update of a running pod: old and new object carry the node name.  A group that holds the pod as
+	// assigned changes nothing; one that does not hold it files it ("pod creation is before quota creation") and marks
+	// it assigned, because the object is bound; one that holds it unassigned marks it assigned.
+	update := func(p *c03Pod) {
+		old := p.obj
+		if old.Spec.NodeName == "" {
+			old = old.DeepCopy()
+			old.Spec.NodeName = "n1"
+		}
+		neu := old.DeepCopy()
+		neu.ResourceVersion = fmt.Sprint(1000 + step0)
+		step0++
+		if p.inCache {
+			h.Op("podbind %d", p.id)
+		} else {
+			h.Op("podaddb %d", p.id)
+			p.quota = home(p.id)
+			p.inCache = true
+			delete(dropped, p.id)
+			h.Nontrivial()
+			h.Tag(fmt.Sprintf("late:bound-pod-filed-by-update:default=%v", p.quota == 1))
+		}
+		gp.OnPodUpdate(old, neu)
+		p.obj = neu
+		p.assigned = true
+		if p.id == pending {
+			pending = 0
+		}
+		w.dump()
+	}
 	register := func(id int) {
 		w.setQuota(w.quotas[id])
 		// between the creation and the tick: the bind update of a waiting pod (files it under the new group although
@@ -2571,9 +2607,16 @@ func c03LateCase(t *testing.T, h *vHarness, suit *pluginTestSuit, idx int, dmax 
 		sort.Ints(ids)
 		for _, pid := range ids {
 			p := w.pods[pid]
-			switch r.Intn(4) {
+			choice := forced
+			if choice < 0 {
+				choice = r.Intn(4)
+			}
+			switch choice {
 			case 0:
 				old := p.obj
+				if old.Spec.NodeName != "" {
+					h.Tag(fmt.Sprintf("late:bound-bound-update-before-tick:assigned-in-default=%v", p.assigned))
+				}
 				neu := old.DeepCopy()
 				neu.Spec.NodeName = "n1"
 				neu.ResourceVersion = fmt.Sprint(1000 + step0)
@@ -2597,17 +2640,133 @@ func c03LateCase(t *testing.T, h *vHarness, suit *pluginTestSuit, idx int, dmax 
 				w.dump()
 			}
 		}
+		// pods the group held when it was deleted: their next ordinary update (both objects bound) files them again,
+		// straight under the re-created group (no PodInfo in the default quota, the tick has nothing to do for them)
+		ids = ids[:0]
+		for pid := range dropped {
+			if label[pid] == id {
+				ids = append(ids, pid)
+			}
+		}
+		sort.Ints(ids)
+		for _, pid := range ids {
+			if forced == 0 || (forced < 0 && r.Chance(2, 3)) {
+				update(w.pods[pid])
+				bound[pid] = true
+				h.Tag("late:dropped-pod-update-before-tick")
+			}
+		}
 		w.transient = false
 		tick()
 		if len(bound) > 0 && !w.acctBroken {
 			sums := gp.groupQuotaManager.GetQuotaSummaries(false)
 			if sg := sums[c03QName(id)]; sg != nil {
-				if u := c03FromList(sg.Used); u.v != w.usedO(id, false) {
-					h.Fail("C03:update-before-migration-double-count", "group %d: a pod update arrived between the group's creation and the migration tick; "+
-						"after the tick the group reports used %v, the pods assigned in it request %v", id, u.v, w.usedO(id, false))
+				if u, uo := c03FromList(sg.Used), w.usedO(id, false); u.v != uo {
+					under := true
+					for d := 0; d < c03D; d++ {
+						if u.v[d] > uo[d] {
+							under = false
+						}
+					}
+					if under {
+						h.Fail("C03:bound-pod-filed-unassigned", "group %d: the update of a running (bound) pod arrived between the group's creation and the migration "+
+							"tick; after the tick the group reports used %v, the pods assigned in it request %v: the running pod is held but not counted", id, u.v, uo)
+					} else {
+						h.Fail("C03:update-before-migration-double-count", "group %d: a pod update arrived between the group's creation and the migration tick; "+
+							"after the tick the group reports used %v, the pods assigned in it request %v", id, u.v, uo)
+					}
 				}
 			}
 		}
+	}
+	// OnQuotaDelete of a planned group (no child groups): the QuotaInfo goes and its PodCache with it; nothing files the
+	// pods under the default quota.  The pods that were assigned there are running pods: their objects carry the node
+	// name from now on (the binding has long completed).
+	dropQuota := func(id int) {
+		q := w.quotas[id]
+		h.Op("quotadel %d", id)
+		gp.OnQuotaDelete(q.obj)
+		q.added, q.lastRT, q.obj = false, nil, nil
+		var order []int
+		for _, o := range w.order {
+			if o != id {
+				order = append(order, o)
+			}
+		}
+		w.order = order
+		for _, p := range w.pods {
+			if p.quota == id && p.inCache {
+				if p.assigned || p.obj.Spec.NodeName != "" {
+					if p.obj.Spec.NodeName == "" {
+						p.obj = p.obj.DeepCopy()
+						p.obj.Spec.NodeName = "n1"
+					}
+					dropped[p.id] = true
+				}
+				p.inCache, p.assigned = false, false
+				if p.id == pending {
+					pending = 0
+				}
+			}
+		}
+		h.Tag("late:group-deleted")
+		w.dump()
+	}
+	// a new pod object; bound = it already carries a node name (a running pod met for the first time: fail-over add)
+	newPod := func(id, l int, np bool, req c03RL, isBound bool) *c03Pod {
+		p := &c03Pod{id: id, quota: l, np: np, req: req}
+		label[p.id] = l
+		p.obj = c03MakePod(r, p) // the label names group l whether or not it exists
+		if isBound {
+			p.obj.Spec.NodeName = "n1"
+		}
+		w.pods[p.id] = p
+		h.Op("poddef %d %d %d %s", p.id, l, vB(p.np), p.req.toks())
+		w.dump()
+		p.quota = home(p.id)
+		if isBound {
+			h.Op("podaddb %d", p.id)
+		} else {
+			h.Op("podadd %d", p.id)
+		}
+		gp.OnPodAdd(p.obj)
+		p.inCache, p.assigned = true, isBound
+		w.dump()
+		h.Tag(fmt.Sprintf("late:pod-filed-under-default:%v:bound=%v", p.quota == 1, isBound))
+		return p
+	}
+	if idx < 8 {
+		// directed: group 3 (max cpu 10, memory 20), a RUNNING pod 1 (cpu 8) and a second pod 2 (cpu 8) of group 3.
+		//  0-3  pod 1 is seen (bound) while group 3 does not exist -> default quota; group 3 created; ordinary update of
+		//       pod 1; tick; pod 2 asks for admission (8 + 8 > 10).
+		//  4-5  group 3 exists, pod 1 seen (bound); group 3 deleted and re-created; ordinary update of pod 1; tick; pod 2.
+		//  6-7  as 4-5, and pod 1 also gets an ordinary update while group 3 is gone (-> default quota).
+		forced = 0
+		q := w.quotas[3]
+		q.max = c03RL{has: [c03D]bool{true, true, false}, v: [c03D]int64{10000, 20, 0}}
+		q.min = c03RL{}
+		req := c03RL{has: [c03D]bool{true, true, false}, v: [c03D]int64{8000, 1, 0}}
+		if idx >= 4 {
+			register(3)
+		}
+		p1 := newPod(1, 3, false, req, true)
+		if idx >= 4 {
+			dropQuota(3)
+			if idx >= 6 {
+				update(p1)
+			}
+		}
+		register(3)
+		p2 := newPod(2, 3, false, req, false)
+		if w.attempt(p2) {
+			h.Op("res %d", p2.id)
+			gp.Reserve(context.TODO(), framework.NewCycleState(), p2.obj, "n1")
+			p2.assigned = true
+			w.dump()
+		}
+		update(p1) // once more, now that everything has settled: changes nothing
+		h.Tag("late:directed")
+		return
 	}
 	recreate := func(p *c03Pod) { // a deleted pod comes back under the same name: new object, new UID, new request
 		for len(p.stale) <= p.inc {
@@ -2676,21 +2835,11 @@ func c03LateCase(t *testing.T, h *vHarness, suit *pluginTestSuit, idx int, dmax 
 			p := pick(func(p *c03Pod) bool { return p.inCache && !p.assigned })
 			if (p == nil || r.Chance(1, 3)) && len(w.pods) < 10 {
 				l := planned[r.Intn(len(planned))]
-				p = &c03Pod{id: nextPod, quota: l, np: r.Chance(1, 4), req: c03GenReq(r)}
+				np, req := r.Chance(1, 4), c03GenReq(r)
+				p = newPod(nextPod, l, np, req, r.Chance(1, 3))
 				nextPod++
-				label[p.id] = l
-				p.obj = c03MakePod(r, p) // the label names group l whether or not it exists
-				w.pods[p.id] = p
-				h.Op("poddef %d %d %d %s", p.id, l, vB(p.np), p.req.toks())
-				w.dump()
-				p.quota = home(p.id)
-				h.Op("podadd %d", p.id)
-				gp.OnPodAdd(p.obj)
-				p.inCache = true
-				w.dump()
-				h.Tag(fmt.Sprintf("late:pod-filed-under-default:%v", p.quota == 1))
 			}
-			if p == nil {
+			if p == nil || p.assigned { // (a pod that arrived bound is running: no admission attempt)
 				continue
 			}
 			pending = 0
@@ -2719,9 +2868,10 @@ func c03LateCase(t *testing.T, h *vHarness, suit *pluginTestSuit, idx int, dmax 
 			}
 		case k < 75:
 			if p := pick(func(p *c03Pod) bool { return !p.inCache }); p != nil {
-				if r.Bool() || p.obj.Spec.NodeName != "" { // (an add of an object with a node name is a fail-over add: outside the model)
+				if r.Bool() || p.obj.Spec.NodeName != "" { // (a pod that comes back by OnPodAdd is a new, pending incarnation)
 					recreate(p)
 				}
+				delete(dropped, p.id)
 				p.quota = home(p.id)
 				h.Op("podadd %d", p.id)
 				gp.OnPodAdd(p.obj)
@@ -2729,13 +2879,37 @@ func c03LateCase(t *testing.T, h *vHarness, suit *pluginTestSuit, idx int, dmax 
 				w.dump()
 			}
 		case k < 90:
-			for _, id := range planned {
-				if !w.quotas[id].added {
-					h.Tag("late:group-created")
-					register(id)
-					pending = 0
-					break
+			created := false
+			if !r.Chance(1, 4) {
+				for _, id := range planned {
+					if !w.quotas[id].added {
+						h.Tag("late:group-created")
+						register(id)
+						pending = 0
+						created = true
+						break
+					}
 				}
+			}
+			if !created { // a registered planned group is deleted (and may be created again later)
+				var cands []int
+				for _, id := range planned {
+					if w.quotas[id].added {
+						cands = append(cands, id)
+					}
+				}
+				if len(cands) > 0 {
+					dropQuota(cands[r.Intn(len(cands))])
+				}
+			}
+		case k < 94:
+			// an ordinary update of a running pod: one its group holds, or one that lost its group (then it is filed under
+			// the default quota, or under its group if that exists again)
+			if p := pick(func(p *c03Pod) bool {
+				return (p.inCache && p.obj.Spec.NodeName != "" && !waiting(p)) || (!p.inCache && dropped[p.id])
+			}); p != nil {
+				update(p)
+				h.Tag("late:ordinary-update")
 			}
 		default:
 			if p := pick(func(p *c03Pod) bool { return p.inCache && len(p.stale) > 0 && !waiting(p) }); p != nil && r.Chance(2, 3) {
